@@ -310,10 +310,10 @@ class C11(Check):
         driver.write_files(d, files)
         res = driver.run(["run", "main.ms", "-q"], d)
         viol = []
-        if not (res.exit != 0 and "Did not compile" in res.err):
+        if not (driver.compile_rejected(res)):
             viol.append({"sig": {"kind": "negative-accepted", "case": kind}, "what": f"{kind} ({sp}) must be rejected at compile time; "
                          f"exit {res.exit}, stdout {res.out[-200:]!r}", "detail": {"files": files, "res": res.brief()}})
-        elif "init" in res.out.split("-->")[0]:
+        elif any(l.strip().startswith("init ") for l in res.out.split("\n")):
             viol.append({"sig": {"kind": "ran-before-reject", "case": kind}, "what": "statements ran although compilation failed",
                          "detail": {"files": files, "res": res.brief()}})
         return {"outcome": "neg-rejected" if not viol else "neg-ACCEPTED", "viol": viol, "nontrivial": True, "tags": ["neg"]}
@@ -336,7 +336,7 @@ class C11(Check):
                     res = c
             results[path] = res
             lines = res.lines()
-            if res.exit != 0 and "Did not compile" in res.err:
+            if driver.compile_rejected(res):
                 return {"outcome": "rejected", "nontrivial": False, "tags": ["rejected"], "show": res.out[-400:]}
             if res.exit != 0 or lines != exp:
                 i = next((k for k, (a, b) in enumerate(zip(lines, exp)) if a != b), min(len(lines), len(exp)))
